@@ -10,14 +10,14 @@ open SpatialId
 
 /-- numeric literals of `transform.calcBitIndex` -/
 theorem facts_transform_calcBitIndex :
-    Gen.funcFacts.lookup "transform.calcBitIndex" = some ["i:0", "i:1", "i:2"] := by decide
+    Gen.funcFacts.lookup "transform.calcBitIndex" = some ["i:2"] := by decide
 
 /-- numeric literals of `transform.convertVerticallIDToBit` -/
 theorem facts_transform_convertVerticallIDToBit :
-    Gen.funcFacts.lookup "transform.convertVerticallIDToBit" = some ["i:1", "i:2"] := by decide
+    Gen.funcFacts.lookup "transform.convertVerticallIDToBit" = some ["i:2"] := by decide
 
 /-- numeric literals of `transform.convertBitToVerticalID` -/
 theorem facts_transform_convertBitToVerticalID :
-    Gen.funcFacts.lookup "transform.convertBitToVerticalID" = some ["i:0", "i:1", "i:2"] := by decide
+    Gen.funcFacts.lookup "transform.convertBitToVerticalID" = some ["i:2"] := by decide
 
 end SpatialId.FactsBitAlt
